@@ -3299,6 +3299,8 @@ HPread_drec(int32 file_id, atom_t data_id, uint8 **drec_buf)
     uint16 drec_tag, drec_ref; /* description record tag/ref */
     int32  ret_value = 0;
 
+    *drec_buf = NULL;
+
     /* get the info for the dataset (description record) */
     if (HTPinquire(data_id, &drec_tag, &drec_ref, NULL, &drec_len) == FAIL)
         HGOTO_ERROR(DFE_INTERNAL, FAIL);
@@ -3314,12 +3316,22 @@ HPread_drec(int32 file_id, atom_t data_id, uint8 **drec_buf)
         HGOTO_ERROR(DFE_BADAID, FAIL);
     if (Hread(drec_aid, 0, *drec_buf) == FAIL)
         HGOTO_ERROR(DFE_READERROR, FAIL);
-    if (Hendaccess(drec_aid) == FAIL)
+    if (Hendaccess(drec_aid) == FAIL) {
+        drec_aid = FAIL;
         HGOTO_ERROR(DFE_CANTENDACCESS, FAIL);
+    }
 
     ret_value = drec_len;
 
 done:
+    if (ret_value == FAIL) { /* Error condition cleanup */
+        if (drec_aid != FAIL)
+            Hendaccess(drec_aid); /* do not leave the AID attached to the file */
+        if (drec_buf != NULL && *drec_buf != NULL) {
+            free(*drec_buf);
+            *drec_buf = NULL;
+        }
+    }
     return ret_value;
 } /* HPread_drec */
 
